@@ -8,7 +8,7 @@
  * exactly the two groups in s_backup_bgs; without sparse_super every group;
  * otherwise group 1 and the powers of 3, 5 and 7.
  */
-#include "/repo/lib/ext2fs/closefs.c"
+#include "lib/ext2fs/closefs.c"
 
 struct vf_in {
 	__u32 group;
